@@ -358,6 +358,16 @@ Definition dfsd_view (st : store) (members : list (Z * Z)) : option view :=
   | _ => None
   end.
 
+(** hdfsds.c hdf_read_ndgs, case DFTAG_SDLNK (and dfsd.c DFSDIsetnsdg_t): an NDG that carries a link element names
+    the SDG that describes the same data for pre-3.2 readers; that SDG is not presented a second time *)
+Definition sdlnk_sdg (st : store) (members : list (Z * Z)) : list Z :=
+  flat_map (fun p => if fst p =? DFTAG_SDLNK then
+                       match get st DFTAG_SDLNK (snd p) with
+                       | Some [_; _; _; _; _; _; r1; r0] => [r1 * 256 + r0]
+                       | _ => []
+                       end
+                     else []) members.
+
 (** how every view names a type written with flavour bits (native is recorded as the host's class) *)
 Definition shown_nt (nt : Z) : Z :=
   let b := Z.land nt 255 in
